@@ -170,8 +170,9 @@ def check_fn(case, rec):
 
 @st.composite
 def runtime_cases(draw, tier):
-    return dict(op=draw(st.sampled_from(['multiply', 'add', 'einsum', 'arctan2', 'less', 'subtract', 'loop_sum', 'loop_concatenate', 'nested-loop-length'])),
-                n=draw(st.integers(0, 4)), m=draw(st.integers(0, 4)), simplify=draw(st.booleans()), optimize=draw(st.booleans()))
+    return dict(op=draw(st.sampled_from(['multiply', 'add', 'einsum', 'arctan2', 'less', 'subtract', 'loop_sum', 'loop_concatenate', 'nested-loop-length', 'inrange', 'inrange'])),
+                n=draw(st.integers(0, 4)), m=draw(st.integers(0, 4)), simplify=draw(st.booleans()), optimize=draw(st.booleans()),
+                lo=draw(st.integers(0, 4)), span=draw(st.integers(0, 3)), top=draw(st.integers(0, 5)), take=draw(st.booleans()))
 
 
 def check_runtime(case, rec):
@@ -183,6 +184,31 @@ def check_runtime(case, rec):
     op = case['op']
     args = dict(n=numpy.array(n), m=numpy.array(m))
     kw = dict(_simplify=case['simplify'], _optimize=case['optimize'])
+    if op == 'inrange':
+        # an index known to lie in [0, top] checked against a length known to lie in [lo, lo+span]: the check may be dropped only if the index
+        # is below the smallest possible length; otherwise an index at or beyond the run-time length must be refused
+        lo, hi, top = case.get('lo', 0), case.get('lo', 0) + case.get('span', 0), case.get('top', 0)
+        L = ev.Maximum(ev.Minimum(ev.Argument('n', (), int), ev.constant(hi)), ev.constant(lo))
+        I = ev.Minimum(ev.Maximum(ev.Argument('m', (), int), ev.constant(0)), ev.constant(top))
+        Lv, Iv = min(max(n, lo), hi), min(max(m, 0), top)
+        checked = ev.InRange(I, L)
+        take = bool(case.get('take')) and hi >= 1      # an axis that is empty by construction is rewritten to zeros, and taking from zeros does not look at the index: not asserted
+        f = ev.Take(ev.Range(L) * ev.constant(3) + ev.constant(1), checked) if take else checked
+        blo, bhi = f._intbounds
+        try:
+            got = ev.eval_once(f, arguments=args, **kw)
+        except Exception as e:
+            if Iv >= Lv:
+                rec.label('runtime:inrange-refused'); rec.nontrivial = lo <= Iv; return
+            raise Violation('eval-raised', f'InRange(index {Iv} in [0,{top}], length {Lv} in [{lo},{hi}]): {type(e).__name__}: {str(e)[:200]}', where='runtime:raised:inrange')
+        if Iv >= Lv:
+            raise Violation('mismatch-accepted', f'index {Iv} (known range [0,{top}]) was accepted for an axis of run-time length {Lv} (known range [{lo},{hi}]): evaluated to {numpy.asarray(got).tolist()} '
+                                                  f'[simplify={case["simplify"]} optimize={case["optimize"]} take={take}]', where='runtime:accepted:inrange')
+        want = 3 * Iv + 1 if take else Iv
+        if int(got) != want or not (blo <= int(got) <= bhi):
+            raise Violation('value', f'InRange/Take of index {Iv}, length {Lv}: {int(got)} (announced range [{blo},{bhi}]), expected {want}', where='runtime:value:inrange')
+        rec.nontrivial = top >= lo
+        rec.label('runtime:inrange-accepted'); return
     if op in ('loop_sum', 'loop_concatenate', 'nested-loop-length'):
         i = ev.loop_index('i', N)
         fi = ev.sin(ev.astype(i, float))
